@@ -38,6 +38,10 @@ func (c *ctx) streamR() error {
 		rt := roots[c.r.Intn(len(roots))]
 		l, name := rt.l, rt.name
 		v := gen.Message(c.r, l.File, name, c.valOpts(), 0)
+		if i%25 == 3 {
+			// long repeated scalar fields (thousands of elements): large-payload paths of the packed writers
+			inflateLists(&v, 1500+c.r.Intn(3000))
+		}
 		vs := v.String()
 		msg := l.Reg.ToStruct(name, v)
 		data, bad := realMarshal(msg)
@@ -104,6 +108,23 @@ func (c *ctx) streamR() error {
 		}
 	}
 	return nil
+}
+
+// inflateLists repeats the elements of every non-empty top-level list of numbers up to n elements.
+func inflateLists(v *val.Val, n int) {
+	if v.K != val.Msg {
+		return
+	}
+	for i := range v.Elems {
+		e := &v.Elems[i]
+		if e.K == val.List && len(e.Elems) > 0 && e.Elems[0].K == val.Num {
+			out := make([]val.Val, n)
+			for j := range out {
+				out[j] = e.Elems[j%len(e.Elems)]
+			}
+			e.Elems = out
+		}
+	}
 }
 
 // forwardCompat (C10): sender with the wide schema -> intermediary with the narrow twin (captures
